@@ -1,8 +1,36 @@
 (* C17 — Metric log is searchable, bounded, and survives truncation at any byte.
-   (work in progress: theorems are added as their proofs land) *)
-From SG Require Import Base.Prelude Base.GoInt Model.MLBytes Model.MLDecimal Model.MetricLog.
+   Property theorems only; every proof is `exact <lemma>` from Proofs/. *)
+From SG Require Import Base.Prelude Base.GoInt Model.MLBytes Model.MLDecimal Model.MetricLog
+  Proofs.MLBytesProofs Proofs.MetricLogLineProofs Proofs.MetricLogBoundProofs.
 
-Example C17_model_smoke :
-  parse_line (format_item (mkItem 1700000001000 [50;48] [97;98] 1 2 3 4 5 6 7 (-8)))
-  = Some (mkItem 1700000001000 [50;48] [97;98] 1 2 3 4 5 6 7 (-8)).
+(* every item the writer can be handed (Go field ranges; resource name and time string without
+   '|' and LF - CR is harmless) is read back unchanged from its line *)
+Theorem C17_line_roundtrip : forall it, valid_item it -> parse_line (format_item it) = Some it.
+Proof. exact line_roundtrip. Qed.
+
+(* ... and from a data file: reading from the byte offset of a line returns the items from that
+   line on, whatever unterminated bytes (a torn last line) follow *)
+Theorem C17_file_roundtrip : forall pre its tail, Forall valid_item its -> ~ In 10 tail ->
+  read_items (pre ++ enc_lines its ++ tail) (lenZ pre) = its.
+Proof. exact read_items_at. Qed.
+
+(* the number of data files (each with its idx file) never exceeds MaxFileAmount, after every
+   operation of every history, for every size limit, zone and creation time *)
+Theorem C17_file_bound : forall c t0 ops, 1 <= c_max_files c ->
+  lenZ (w_fs (y_w (fst (run c (sys_init c t0) ops)))) <= c_max_files c.
+Proof. exact file_bound. Qed.
+
+Example C17_line_roundtrip_nonvacuous :
+  valid_item (mkItem 1700000001000 [50;48] [97;32;98] 1 2 3 18446744073709551615 5 6 4294967295 (-2147483648)).
+Proof. unfold valid_item, lim64, lim32, half32, bar. cbn. repeat split; try lia; intuition lia. Qed.
+
+Example C17_file_bound_nonvacuous :
+  let c := mkCfg 20 2 0 in
+  let it := mkItem 0 [] [97] 1 2 3 4 5 6 7 8 in
+  let ops := [Write 1700000001000 [50] [it]; Write 1700000001500 [50] [it]; Write 1700000002000 [50] [it]] in
+  map (fun f => (f_day f, f_seq f)) (w_fs (y_w (fst (run c (sys_init c 1700000000000) ops)))) = [(19675, 2); (19675, 3)].
 Proof. vm_compute. reflexivity. Qed.
+
+Print Assumptions C17_line_roundtrip.
+Print Assumptions C17_file_roundtrip.
+Print Assumptions C17_file_bound.
